@@ -108,8 +108,11 @@ func (cmd *IdleCommand) Wait() error {
 
 func (c *Client) idle() (*idleCommand, error) {
 	cmd := &idleCommand{}
-	contReq := c.registerContReq(cmd)
 	cmd.enc = c.beginCommand("IDLE", cmd)
+	// The continuation request must be registered while holding the encoder
+	// lock, otherwise it could be queued before the one of a command started
+	// concurrently but sent first
+	contReq := c.registerContReq(cmd)
 	cmd.enc.flush()
 
 	_, err := contReq.Wait()
